@@ -1,6 +1,9 @@
 //! tsim — deterministic simulator with fault injection for tsrun (see /verif/DESIGN.md).
 
 mod framework;
+mod host;
+mod proggen;
+mod progscn;
 mod props;
 mod rng;
 
@@ -18,6 +21,10 @@ fn check(id: &str, tier: Tier) -> i32 {
         "C13" => {
             let n = ctx.runs(200_000, 20_000_000);
             run_check(&props::c13::C13, &ctx, &[("histories", n)], |_, _| Vec::new()).exit
+        }
+        "C02" => {
+            let n = ctx.runs(3_000, 300_000);
+            run_check(&props::c02::C02, &ctx, &[("programs", n)], |_, _| Vec::new()).exit
         }
         _ => {
             eprintln!("HARNESS-ERROR: unknown or not-applicable property {}", id);
@@ -44,6 +51,7 @@ fn replay(path: &Path) -> i32 {
     let prop = v.get("property").and_then(|p| p.as_str()).unwrap_or("");
     match prop {
         "C13" => replay_main(&props::c13::C13, path),
+        "C02" => replay_main(&props::c02::C02, path),
         _ => {
             eprintln!("HARNESS-ERROR: replay file names unknown property {:?}", prop);
             2
@@ -64,6 +72,44 @@ fn main() {
                 _ => usage(),
             };
             check(&id, tier)
+        }
+        Some("gen") => {
+            // debug: print a generated program and its reference outcome
+            let seed: u64 = args.get(2).and_then(|s| s.parse().ok()).unwrap_or(1);
+            let holes: usize = args.get(3).and_then(|s| s.parse().ok()).unwrap_or(0);
+            let mut r = rng::Rng::new(seed);
+            let mut cfg = proggen::GenCfg::swarm(&mut r, holes);
+            cfg.size = 5 + r.below(40);
+            let v = if holes > 0 { proggen::HoleVariant::Order } else { proggen::HoleVariant::Sync };
+            let case = progscn::ProgCase::generate(&mut r, cfg, v, "v");
+            println!("{}", case.source());
+            let out = host::run_solo(&case.spec(host::Driver::Step, host::GcSched::off(), rng::Tape::from_vec(vec![]), 3_000_000));
+            println!("// result: {}", out.result);
+            println!("// console: {:?}", out.console);
+            println!("// traffic: {:?}", out.traffic);
+            println!("// answers: {:?}", case.answers);
+            0
+        }
+        Some("genstats") => {
+            let n: u64 = args.get(2).and_then(|s| s.parse().ok()).unwrap_or(100);
+            let holes: usize = args.get(3).and_then(|s| s.parse().ok()).unwrap_or(0);
+            let mut tally: std::collections::BTreeMap<String, (u64, u64)> = Default::default();
+            for seed in 0..n {
+                let mut r = rng::Rng::new(seed);
+                let mut cfg = proggen::GenCfg::swarm(&mut r, holes);
+                cfg.size = 5 + r.below(40);
+                let v = if holes > 0 { proggen::HoleVariant::Order } else { proggen::HoleVariant::Sync };
+                let case = progscn::ProgCase::generate(&mut r, cfg, v, "v");
+                let out = host::run_solo(&case.spec(host::Driver::Step, host::GcSched::off(), rng::Tape::random(&mut r, 16), 3_000_000));
+                let key: String = if out.result.starts_with("complete:") {
+                    let body = &out.result;
+                    if let Some(i) = body.find("threw:") { body[i..].split('|').next().unwrap_or("").chars().take(40).collect() } else { "complete".into() }
+                } else { out.result.chars().take(90).collect() };
+                let e = tally.entry(key).or_insert((0, seed));
+                e.0 += 1;
+            }
+            for (k, (c, s)) in tally { println!("{:6} seed={} {}", c, s, k); }
+            0
         }
         Some("replay") => {
             let p = args.get(2).cloned().unwrap_or_else(|| usage());
